@@ -73,11 +73,14 @@ pub fn main(args: &[String]) -> i32 {
 	let mut out = Out::new(&args[2]);
 	let scratch = std::path::PathBuf::from(&args[2]).join("scratch");
 	let sizes = load_sizes();
-	let mut rng = Rng::new(seed ^ 0xC06);
 	let mut oracle = String::new();
 	let mut dist: BTreeMap<String, u64> = BTreeMap::new();
 	let mut distinct = std::collections::HashSet::new();
 	for i in 0..count {
+		let mut rng = crate::util::case_rng(seed ^ 0xC06, i);
+		if crate::util::skip_case(i) {
+			continue
+		}
 		let rc = rng.chance(1, 3);
 		let dir = scratch.join("db");
 		let _ = std::fs::remove_dir_all(&dir);
